@@ -538,8 +538,21 @@ _ARITH = {"BitAnd": lambda a, b: a & b, "BitOr": lambda a, b: a | b, "BitXor": l
 _WIDTH = {"u8": 8, "u16": 16, "u32": 32, "u64": 64, "usize": 64, "u128": 128}
 
 
+def _byte_place(o):
+    """(local, index) if the operand reads element `index` (constant, from the front) of the slice/array behind
+    `local`: `(*data)[2 of 3]` - how slice patterns and array patterns name input bytes."""
+    p = op_place(o) if isinstance(o, dict) else None
+    if p is None:
+        return None
+    pj = [e for e in p["p"] if e != "deref"]
+    if len(pj) == 1 and isinstance(pj[0], dict) and "cidx" in pj[0] and not pj[0].get("from_end"):
+        return (p["l"], pj[0]["cidx"])
+    return None
+
+
 def _known_operand(o, known):
-    """("i", n) / ("b", x) value of an operand if it is a constant or a local with known value."""
+    """("i", n) / ("b", x) value of an operand if it is a constant, a local with known value, or a pinned input
+    byte (key ("byte", local, index) in `known`)."""
     k = o.get("k") if isinstance(o, dict) else None
     if k is not None and isinstance(k.get("v"), int):
         tn = (k.get("ty") or {}).get("n")
@@ -547,6 +560,9 @@ def _known_operand(o, known):
     l = op_local(o)
     if l is not None:
         return known.get(l)
+    bp = _byte_place(o)
+    if bp is not None:
+        return known.get(("byte",) + bp)
     return None
 
 
@@ -585,6 +601,8 @@ def bool_transfer(body, bb, known, pins=None):
                 if src is not None and src in known:
                     val = known[src]
                     pay = known.get((src, "payload"))
+                elif src is None and _byte_place(o) is not None and ("byte",) + _byte_place(o) in known:
+                    val = known[("byte",) + _byte_place(o)]
                 elif src is None:
                     # `x = move (y as Variant).0`: the payload of a value built on this path
                     pl = op_place(o)
@@ -599,6 +617,11 @@ def bool_transfer(body, bb, known, pins=None):
             src = op_local(rv["a"])
             if src is not None and known.get(src, ("?",))[0] == "b":
                 val = ("b", not known[src][1])
+        elif r == "un" and rv.get("op") == "PtrMetadata":
+            # length of a slice whose length is pinned for a case split (key ("len", local))
+            p_ = op_place(rv["a"])
+            if p_ is not None and not [e for e in p_["p"] if e != "deref"] and ("len", p_["l"]) in known:
+                val = known[("len", p_["l"])]
         elif r == "agg" and rv.get("kind") == "adt" and isinstance(rv.get("variant"), int):
             val = ("v", rv["variant"])
             if len(rv.get("ops", [])) == 1:
@@ -678,6 +701,9 @@ def bool_switch_target(body, bb, known):
     if t["t"] != "switch":
         return None
     l = op_local(t["d"])
+    if l is None:
+        bp = _byte_place(t["d"])
+        l = ("byte",) + bp if bp is not None else None
     if l is None or l not in known:
         return None
     k = known[l]
@@ -705,9 +731,12 @@ def feasible_reach(body, start=0, cut_edges=(), cut_blocks=(), init=None, pins=N
     if relevant is None:
         relevant = switch_relevant_locals(body)
         body._switch_relevant = relevant
+    init = dict(init or {})
     if pins:
-        relevant = relevant | set(pins)
-    s0 = (start, frozenset((init or {}).items()))     # init: local -> ("b"|"i"|"v", value)
+        relevant = relevant | {k for k in pins if not isinstance(k, tuple)}
+        # pinned input bytes (("byte", local, index) keys) hold from the start
+        init.update({k: v for k, v in pins.items() if isinstance(k, tuple) and k[0] in ("byte", "len")})
+    s0 = (start, frozenset(init.items()))     # init: local -> ("b"|"i"|"v", value)
     seen = {s0}
     st = [s0]
     blocks = set()
@@ -795,4 +824,5 @@ def switch_relevant_locals(body):
 
 
 def prune_known(known, relevant):
-    return {k: v for k, v in known.items() if (k[0] if isinstance(k, tuple) else k) in relevant}
+    return {k: v for k, v in known.items()
+            if (isinstance(k, tuple) and k[0] in ("byte", "len")) or (k[0] if isinstance(k, tuple) else k) in relevant}
